@@ -51,6 +51,12 @@ def entropy_bytes(t):
 
 def run(ctx):
     model = ctx.model
+    shared.import_rule(ctx, "C07", ("R07.writers", "R07.lookup"), "R03.live",
+                       "claim rows and nameplate rows are changed / deleted only through one "
+                       "app-scoped nameplate id (same rule instances as R07.writers, R07.lookup)",
+                       "a nameplate that is still held is retired from elsewhere (another "
+                       "nameplate's or another app's release): the holder's next claim creates "
+                       "a new nameplate and is told a different mailbox id", minimum=3)
     from .. import roles as _rm2
     shared.r_ident(ctx, "R03.ident", (_rm2.get(model).claim_op, _rm2.get(model).release_op),
                    "two different names lead to one nameplate, or one name to two")
